@@ -1,6 +1,7 @@
 import Driver.Codec
 import PanderaModel.Generated.ScopeMap
 import PanderaModel.Generated.BuiltinChecks
+import PanderaModel.Aggregate
 open Lean Pandera
 
 structure Case where
@@ -11,6 +12,11 @@ structure Case where
 
 structure BCase where
   b : Builtin
+  vals : List Val
+  deriving FromJson
+
+structure ACase where
+  vs : List Val
   vals : List Val
   deriving FromJson
 
@@ -57,6 +63,9 @@ def answer (j : Json) : Except String Json := do
     return Json.mkObj [
       ("doc", toJson (c.vals.map (docPred c.b))),
       ("gen", toJson (c.vals.map (evalVia Generated.pandasBuiltins c.b)))]
+  | .ok (.str "aggregate") =>
+    let c : ACase ← fromJson? j
+    return Json.mkObj [("uniqueValuesEq", toJson (uniqueValuesEq c.vs true c.vals))]
   | _ =>
     let c : Case ← fromJson? j
     let errs := frameErrors Generated.generatedScopes c.depth c.schema c.frame
